@@ -328,6 +328,89 @@ theorem stalemates_resolved_order {g g' : Graph} {r : Nat → Nat} (hwf : g.well
   obtain ⟨_, hwf', ⟨r', hr'⟩, hnone⟩ := resolveLoop_sound _ g [] [] g' h hwf ⟨r, hr⟩
   exact no_stalemate_order hwf' hr' (hnone rfl)
 
+/-- helper: the model's ordering loop only ever extends a run by legal placements. -/
+theorem orderLoop_sound {g : Graph} :
+    ∀ (fuel : Nat) (placed σ : List Nat), isRunFrom g [] placed = true → (∀ x ∈ placed, x < g.size) →
+      orderLoop g fuel placed = some σ →
+      isRun g σ = true ∧ (∀ x ∈ σ, x < g.size) ∧ σ.length = g.size := by
+  intro fuel
+  induction fuel with
+  | zero =>
+    intro placed σ hrun hb h
+    simp only [orderLoop] at h
+    split at h
+    · rename_i hl
+      simp only [Option.some.injEq] at h; subst h
+      exact ⟨hrun, hb, by simpa using hl⟩
+    · cases h
+  | succ f ih =>
+    intro placed σ hrun hb h
+    simp only [orderLoop] at h
+    split at h
+    · rename_i hl
+      simp only [Option.some.injEq] at h; subst h
+      exact ⟨hrun, hb, by simpa using hl⟩
+    · split at h
+      · rename_i n hfind
+        have hprop := List.find?_some hfind
+        have hmem := List.mem_of_find?_eq_some hfind
+        simp only [Bool.and_eq_true, Bool.not_eq_true'] at hprop
+        have hnp : n ∉ placed := by
+          intro hin
+          have := List.contains_iff_mem.mpr hin
+          rw [hprop.1] at this; cases this
+        apply ih (placed ++ [n]) σ (isRunFrom_snoc hrun hnp hprop.2) _ h
+        intro x hx
+        simp only [List.mem_append, List.mem_singleton] at hx
+        rcases hx with hx | rfl
+        · exact hb x hx
+        · exact List.mem_range.mp hmem
+      · cases h
+
+/-- **the forward pass is exact**: it reports a stalemate only when the ordering step really would get stuck — a graph
+    that has a complete legal order is never touched by `ordering_stalemates` (no clone, no diagnostic). With
+    `no_stalemate_order`: for well-formed acyclic call graphs, `findStalemate g [] = []` iff `order g` succeeds. -/
+theorem stalemate_means_stuck {g : Graph} (h : findStalemate g [] ≠ []) : order g = none := by
+  cases hfs : findStalemate g [] with
+  | nil => exact absurd hfs h
+  | cons s rest =>
+    obtain ⟨final, hrun, hb, hstuck, hs1, hs2⟩ := findStalemateLoop_some (g := g) (g.size + 1) []
+      (by simp [isRunFrom]) (by simp) (by simp) s (by
+        have : s ∈ findStalemate g [] := by rw [hfs]; exact List.mem_cons_self ..
+        exact this)
+    cases ho : order g with
+    | none => rfl
+    | some σ =>
+      exfalso
+      obtain ⟨hσrun, hσb, hσlen⟩ := orderLoop_sound g.size [] σ (by simp [isRunFrom]) (by simp) ho
+      have hσnd : σ.Nodup := isRun_nodup hσrun
+      have hsσ : s.1 ∈ σ := nodup_full hσnd hσb hσlen s.1 hs1
+      -- the first node of σ outside `final` can be placed from `final`
+      have key : ∀ (pre rest : List Nat), σ = pre ++ rest → (∀ x ∈ pre, x ∈ final) →
+          (∃ n ∈ rest, n ∉ final) → ∃ n, n ∈ σ ∧ n ∉ final ∧ canPlace g final n = true := by
+        intro pre rest
+        induction rest generalizing pre with
+        | nil => intro _ _ ⟨n, hn, _⟩; cases hn
+        | cons a rest ih =>
+          intro hsplit hpre hex
+          by_cases ha : a ∈ final
+          · apply ih (pre ++ [a]) (by simp [hsplit])
+            · intro x hx
+              simp only [List.mem_append, List.mem_singleton] at hx
+              rcases hx with hx | rfl
+              · exact hpre x hx
+              · exact ha
+            · obtain ⟨n, hn, hnp⟩ := hex
+              simp only [List.mem_cons] at hn
+              rcases hn with rfl | hn
+              · exact absurd ha hnp
+              · exact ⟨n, hn, hnp⟩
+          · exact ⟨a, by simp [hsplit], ha, canPlace_mono hpre (isRun_split hσrun pre a rest hsplit).1⟩
+      obtain ⟨n, hnσ, hnf, hcp⟩ := key [] σ (by simp) (by simp) ⟨s.1, hsσ, hs2⟩
+      rcases hstuck n (hσb n hnσ) with hin | hno
+      · exact hnf hin
+      · rw [hcp] at hno; cases hno
+
 /-- a diagnostic is reported only when no contended input of any stuck node may be cloned: as long as one may, the pass
     clones instead (for the first stuck node that has one). -/
 theorem stalemate_reported_only_if_not_cloneable (fuel : Nat) (g : Graph) (reported : List Nat) (ds : List OsDiag)
@@ -382,6 +465,8 @@ def exCross (cloneable : Bool) : Graph :=
               ⟨3, 6, .move⟩, ⟨5, 6, .move⟩] }
 -- b1 < c1 < b2 < c2 < b1: no order exists (the compiler panicked here), the forward pass names the stuck node
 example : order (exCross false) = none ∧ findStalemate (exCross false) [] = [(2, [0]), (4, [1])] := by decide
+-- and a graph that can be ordered is left alone (`stalemate_means_stuck`, contrapositive): the diamond after cloning
+example : findStalemate exDiamond [] = [] ∧ resolveStalemates exDiamond = (exDiamond, []) := by decide
 -- not cloneable: reported, once
 example : (resolveStalemates (exCross false)).2 = [.stalemate 2 [0]] := by decide
 -- clone-if-necessary: one clone of V1 (node 7) for c1 breaks the cycle, nothing is reported, and the result can be ordered
